@@ -177,6 +177,40 @@ fn dumb_line(line: &str) -> String {
     })
 }
 
+/// run.rs parse_args on a real command line: this executable is started again (argv[0] and the arguments as given, cwd = a
+/// scratch directory with the subdirectories d1, d1/d2 and "with space") and reports what parse_args returned.
+/// <argv0-hex> [arg-hex ...]
+fn cli_line(line: &str) -> String {
+    use std::os::unix::ffi::OsStringExt;
+    use std::os::unix::process::CommandExt;
+    let w: Vec<String> = words(line).iter().map(|s| s.to_string()).collect();
+    guarded(move || {
+        let dir = std::env::temp_dir().join(format!("n2verif-cli-{}", std::process::id()));
+        let _ = std::fs::remove_dir_all(&dir);
+        std::fs::create_dir_all(dir.join("d1").join("d2")).unwrap();
+        std::fs::create_dir_all(dir.join("with space")).unwrap();
+        let exe = std::env::current_exe().unwrap();
+        let mut cmd = std::process::Command::new(&exe);
+        cmd.arg0(std::ffi::OsString::from_vec(unhex(&w[0])));
+        for a in &w[1..] {
+            cmd.arg(std::ffi::OsString::from_vec(unhex(a)));
+        }
+        cmd.env("N2_VERIF_PARSE", "1").current_dir(&dir).stdin(std::process::Stdio::null());
+        let out = cmd.output().unwrap();
+        let text = String::from_utf8_lossy(&out.stdout).into_owned();
+        let last = text.lines().last().unwrap_or("").to_string();
+        let base = std::fs::canonicalize(&dir).unwrap().to_string_lossy().into_owned();
+        // `-d trace` creates trace.json in the directory current at that moment
+        let traced = ["", "d1", "d1/d2", "with space"].iter().any(|d| dir.join(d).join("trace.json").exists());
+        let _ = std::fs::remove_dir_all(&dir);
+        if !out.status.success() {
+            return format!("died {:?} {}", out.status.code(), String::from_utf8_lossy(&out.stderr).lines().last().unwrap_or(""));
+        }
+        // make the reported directory relative to the scratch directory
+        format!("{} trace={}", last.replace(&format!("cwd={}", hex(base.as_bytes())), "cwd="), traced as u8)
+    })
+}
+
 /// task::run_task around a scripted command:
 /// <showinc 0|1> <term 0|1|2> <stale depfile ~|hex> <depfile the command writes ~|hex> <rspfile content ~|hex> <chunk,chunk,...|->
 fn task_line(line: &str) -> String {
@@ -524,6 +558,13 @@ pub fn raw_string(b: Vec<u8>) -> String {
 }
 
 fn main() {
+    if std::env::var_os("N2_VERIF_PARSE").is_some() {
+        // child of the `cli` suite: report what n2 makes of this very command line
+        let r = n2::run::verif_parse_args();
+        let cwd = std::env::current_dir().map(|p| p.to_string_lossy().into_owned()).unwrap_or_default();
+        println!("{} cwd={}", r, hex(cwd.as_bytes()));
+        return;
+    }
     let args: Vec<String> = std::env::args().collect();
     let suite = args.get(1).map(|s| s.as_str()).unwrap_or("");
     install_quiet_panic_hook();
@@ -540,6 +581,7 @@ fn main() {
         "fancy" => fancy_line,
         "lossy" => lossy_line,
         "task" => task_line,
+        "cli" => cli_line,
         "dumb" => dumb_line,
         "dedup" => dedup_line,
         "hist" => hist::hist_line,
